@@ -29,8 +29,8 @@ def run(ctx):
     total_h += n
     total_ops += o
     plans = [
-        ("refuse", ["--seed", ctx.seed, "--count", 500 if quick else 8000, "--max-ops", 40 if quick else 100, "--refusals", "--invalid-names", "--reopen-pct", 4]),
-        ("refuse-valid", ["--seed", ctx.seed + 1, "--count", 300 if quick else 5000, "--max-ops", 50, "--refusals", "--max-depth", 4]),
+        ("refuse", ["--seed", ctx.seed, "--count", 1200 if quick else 8000, "--max-ops", 40 if quick else 100, "--refusals", "--invalid-names", "--reopen-pct", 4]),
+        ("refuse-valid", ["--seed", ctx.seed + 1, "--count", 800 if quick else 5000, "--max-ops", 50, "--refusals", "--max-depth", 4]),
     ]
     for tag, args in plans:
         stat, h, sample = A.campaign(ctx, args, tag, THM)
@@ -94,7 +94,7 @@ def run(ctx):
         R.cleanup(ctx)
     # refused seeks: part of the handle campaign (C06 machinery): position and window unchanged
     ops, imp, mod = ctx.path("h.ops"), ctx.path("h.impl"), ctx.path("h.model")
-    rc, out = C.harness(["handle", "--seed", ctx.seed, "--count", 200 if quick else 4000, "--max-ops", 60, "--ops", ops, "--impl", imp])
+    rc, out = C.harness(["handle", "--seed", ctx.seed, "--count", 600 if quick else 4000, "--max-ops", 60, "--ops", ops, "--impl", imp])
     stat, h, oracle = C.parse_stats(out)
     C.driver(["handle"], ops, mod)
     for (ln, a, b) in C.diff_lines(imp, mod)[:3]:
